@@ -84,15 +84,31 @@ class SolverOracle:
     are dead for arctan2 results); the first other undecided comparison is the two-or-none test and the compared difference
     gets the sign `disc_sign`; later ones are answered by `later(difference)`."""
 
-    def __init__(self, disc_sign, later=None):
+    def __init__(self, disc_sign, later=None, wraps=None):
         self.disc_sign = disc_sign
         self.later = later
         self.disc = None
+        self.wraps = dict(wraps or {})       # answers to comparisons between sums of principal-value angles and multiples of pi
+        self.passed = []                     # (difference, sign) of those comparisons, in the order met
 
     def __call__(self, d, node=None):
         sg = angle_range_sign(d)
         if sg is not None:
             return sg
+        from props import angles
+        dec = angles.decompose(d) if not d.is_const() else None
+        if dec is not None and dec[0] and all(a in ATOM_ARGS and ATOM_ARGS[a][0] in angles.RANGES for _c, a in dec[0]):
+            # `omega > pi` for an omega that is a sum of principal values: the ranges decide it or it is a case distinction
+            iv = angles.interval(d)
+            if iv is not None and iv[0] > 0:
+                return 1
+            if iv is not None and iv[1] < 0:
+                return -1
+            k = d.key()
+            if k not in self.wraps:
+                raise NeedWrap(k, d)
+            self.passed.append((d, self.wraps[k]))
+            return self.wraps[k]
         if self.disc is None:
             self.disc = d
             return self.disc_sign
@@ -103,10 +119,36 @@ class SolverOracle:
         return self.later(d) if self.later is not None else None
 
 
+class NeedWrap(Exception):
+    def __init__(self, key, d):
+        Exception.__init__(self, key)
+        self.key, self.d = key, d
+
+
+def run_solver_paths(mod, fn, args, disc_sign, later=None):
+    """-> [(result, oracle, evaluator)], one per answer pattern of the wrap comparisons the solver makes (usually one)"""
+    out, stack = [], [{}]
+    while stack:
+        wraps = stack.pop()
+        orc = SolverOracle(disc_sign, later, wraps)
+        ev = Evaluator(mod, inline=True, branch_policy=N.skip_checks_policy, sign_policy=orc)
+        try:
+            r = ev._call_fn(fn, list(args), {})
+        except NeedWrap as need:
+            for sg in (1, -1):
+                stack.append(dict(wraps, **{need.key: sg}))
+            if len(stack) + len(out) > 64:
+                raise AnalysisError("more than 64 wrap cases in a solver")
+            continue
+        out.append((r, orc, ev))
+    return out
+
+
 def run_solver(mod, fn, args, disc_sign, later=None):
-    orc = SolverOracle(disc_sign, later)
-    ev = Evaluator(mod, inline=True, branch_policy=N.skip_checks_policy, sign_policy=orc)
-    return ev._call_fn(fn, list(args), {}), orc, ev
+    paths = run_solver_paths(mod, fn, args, disc_sign, later)
+    r, orc, ev = paths[0]
+    orc.paths = paths
+    return r, orc, ev
 
 
 pos_multiple = N.pos_multiple
@@ -178,6 +220,28 @@ def check_preamble(ctx, mod, short, solver, pre):
               "the vector handed to the solver body is not sin(twoth/2)*g_w/|g_w|", where)
 
 
+_POINTS = []
+
+
+def solver_points():
+    """deterministic sample of the solvers' input space: g directions scaled to |g| = sin(theta), 2theta in (0.5, 150) degrees,
+    both tilts in [-0.5, 0.5] rad"""
+    if not _POINTS:
+        import math
+        x = 12345
+        def rnd():
+            nonlocal x
+            x = (1103515245 * x + 12345) % (2 ** 31)
+            return x / 2 ** 31
+        for _ in range(400):
+            tw = math.radians(0.5 + 149.5 * rnd())
+            u, ph = 2 * rnd() - 1, 2 * math.pi * rnd()
+            r = math.sqrt(max(0.0, 1 - u * u)) * math.sin(tw / 2)
+            _POINTS.append({"g_w[0]": r * math.cos(ph), "g_w[1]": r * math.sin(ph), "g_w[2]": u * math.sin(tw / 2),
+                            "twoth": tw, "w_x": rnd() - 0.5, "w_y": rnd() - 0.5})
+    return _POINTS
+
+
 def analyse_general_like(ctx, mod, short, solver, builder_call, half_angle):
     """find_omega_general / find_omega_quart"""
     fn = mod.func(solver); ctx.saw(mod, fn)
@@ -215,31 +279,67 @@ def analyse_general_like(ctx, mod, short, solver, builder_call, half_angle):
     A, B, C0 = lin
     if len(omega) != 2:
         return
+    from props import angles
     cs = []
-    for i in range(2):
-        args = arctan2_args(scalar(omega[i]))
-        if args is None:
-            ctx.fail("C09:root:%s.%s[%d]" % (short, solver, i), "omega[%d] is not arctan2(sin, cos): %s"
-                     % (i, N.short(scalar(omega[i]))), where)
-            return
-        s_i, c_i = args
-        cs.append((c_i, s_i))
-        unit = (c_i * c_i + s_i * s_i).equals(1)
-        cond = (A * c_i + B * s_i + C0).equals(-gg)
-        ctx.check(unit and cond, "C09:root:%s.%s[%d]" % (short, solver, i),
-                  "with (cos w, sin w) = the arguments of omega[%d]: on the unit circle: %s ; x-row of M(w).g == -g.g: %s "
-                  "(M = the module's own %s)" % (i, unit, cond, "quart_to_omega" if half_angle else "form_omega_mat_general"),
-                  where, sample={"solver": "%s.%s" % (short, solver), "root": i, "cos_w": N.short(c_i, 160)} if i == 0 else None)
-        # eta
-        Mi = mat3(builder_call(Evaluator(mod, inline=True), scalar(omega[i]), wx, wy), "builder")
-        gy = Mi[1][0] * gu[0] + Mi[1][1] * gu[1] + Mi[1][2] * gu[2]
-        gz = Mi[2][0] * gu[0] + Mi[2][1] * gu[1] + Mi[2][2] * gu[2]
-        s2t = N.ref("sin(tw)", {"tw": tw})
-        ea = arctan2_args(scalar(eta[i]))
-        oke = ea is not None and ea[0].equals(-2 * gy / s2t) and ea[1].equals(2 * gz / s2t)
-        ctx.check(oke, "C09:eta:%s.%s[%d]" % (short, solver, i),
-                  "eta[%d] is not arctan2(-2 (M(omega_i) g)_y / sin 2theta, 2 (M(omega_i) g)_z / sin 2theta) with M the module's "
-                  "builder at the solver's own omega, tilts and units" % i, where)
+    paths = getattr(orc, "paths", None) or [(out, orc, ev)]
+    for pk, (outp, orcp, _evp) in enumerate(paths):
+        omega_p, eta_p = as_list(outp[0]), as_list(outp[1])
+        if len(omega_p) != 2 or len(eta_p) != 2:
+            ctx.fail("C09:count:%s.%s:two" % (short, solver), "the number of solutions depends on how an angle is wrapped (%d, %d)"
+                     % (len(omega_p), len(eta_p)), where)
+            continue
+        sfx = "" if pk == 0 else ":wrap%d" % pk
+        for i in range(2):
+            w_i = scalar(omega_p[i])
+            args = arctan2_args(w_i)
+            if args is not None:
+                s_i, c_i = args
+            else:
+                # the root in another form (arcsin / arccos / a difference of principal values): its cosine and sine by the
+                # addition theorems
+                got_cs = angles.cos_sin(w_i)
+                if got_cs is None:
+                    raise AnalysisError("%s.%s: omega[%d] = %s is not a sum of principal-value angles" % (short, solver, i, N.short(w_i, 80)))
+                c_i, s_i = got_cs
+            if pk == 0:
+                cs.append((c_i, s_i))
+            unit = (c_i * c_i + s_i * s_i).equals(1)
+            cond = (A * c_i + B * s_i + C0).equals(-gg)
+            ctx.check(unit and cond, "C09:root:%s.%s[%d]%s" % (short, solver, i, sfx),
+                      "with (cos w, sin w) = %s of omega[%d]: on the unit circle: %s ; x-row of M(w).g == -g.g: %s "
+                      "(M = the module's own %s)" % ("the arguments" if args is not None else "the cosine and sine", i, unit, cond,
+                                                     "quart_to_omega" if half_angle else "form_omega_mat_general"),
+                      where, sample={"solver": "%s.%s" % (short, solver), "root": i, "cos_w": N.short(c_i, 160)} if (i, pk) == (0, 0) else None)
+            # omega in (-pi, pi]
+            if args is not None:
+                ctx.ok("C09:range:%s.%s[%d]%s" % (short, solver, i, sfx))
+            else:
+                inr = angles.in_principal_range(w_i, orcp.passed)
+                if inr is True:
+                    ctx.ok("C09:range:%s.%s[%d]%s" % (short, solver, i, sfx))
+                else:
+                    conds = [(orcp.disc, s2)] if orcp.disc is not None else []
+                    conds += list(orcp.passed)
+                    wit = angles.witness_outside(w_i, conds, solver_points())
+                    if wit is None:
+                        raise AnalysisError("%s.%s: omega[%d] = %s is not shown to lie in (-pi, pi] (range %s pi) and no sample point "
+                                            "leaves it" % (short, solver, i, N.short(w_i, 80), inr[1]))
+                    ctx.fail("C09:range:%s.%s[%d]%s" % (short, solver, i, sfx),
+                             "omega[%d] = %s leaves (-pi, pi]: it is %.6f at %s (the wrap is one-sided: the principal values only bound "
+                             "it to [%s, %s] pi)" % (i, N.short(w_i, 100), wit["value"], sorted(wit["at"].items()),
+                                                     inr[1][0] if inr[1] else "?", inr[1][1] if inr[1] else "?"), where)
+            # eta
+            Mi = mat3(builder_call(Evaluator(mod, inline=True), w_i, wx, wy), "builder")
+            gy = Mi[1][0] * gu[0] + Mi[1][1] * gu[1] + Mi[1][2] * gu[2]
+            gz = Mi[2][0] * gu[0] + Mi[2][1] * gu[1] + Mi[2][2] * gu[2]
+            s2t = N.ref("sin(tw)", {"tw": tw})
+            ea = arctan2_args(scalar(eta_p[i]))
+            oke = ea is not None and ea[0].equals(-2 * gy / s2t) and ea[1].equals(2 * gz / s2t)
+            ctx.check(oke, "C09:eta:%s.%s[%d]%s" % (short, solver, i, sfx),
+                      "eta[%d] is not arctan2(-2 (M(omega_i) g)_y / sin 2theta, 2 (M(omega_i) g)_z / sin 2theta) with M the module's "
+                      "builder at the solver's own omega, tilts and units" % i, where)
+    if len(cs) != 2:
+        return
     distinct = not (cs[0][0].equals(cs[1][0]) and cs[0][1].equals(cs[1][1]))
     ctx.check(distinct, "C09:count:%s.%s:distinct" % (short, solver), "the two roots are the same expression", where)
     # two-or-none test: the compared difference is a positive multiple of +-(A^2 + B^2 - (gg + C0)^2), two solutions on the
